@@ -14,6 +14,7 @@ open RaftWal RaftWal.Conc
 theorem readers_check_empty_state : Generated.readersCheckEmptyState = true := by decide
 theorem writers_recheck_closed_under_lock : Generated.writersRecheckClosedUnderLock = true := by decide
 theorem close_wakes_rotation_waiter : Generated.closeWakesRotationWaiter = true := by decide
+theorem rotation_rechecks_closed : Generated.rotationRechecksClosed = true := by decide
 
 /-- the model configuration is the one read from the source -/
 theorem cfg_from_source : ({ readersCheckEmpty := Generated.readersCheckEmptyState } : Cfg) = Conc.fixed := by decide
